@@ -72,6 +72,8 @@ def lifeCase (inp impl : String) : CaseOut :=
       (if !lifecycleOK withProducers then ["C04 life-cycle shape violated in the actor's own log"] else []) ++
       (if !lastIsX then ["C04+C07 the context became done but Stopped is not the last thing the actor handled"] else []) ++
       (if gotSorted ≠ wantSorted then [s!"C01+C05 deliveries are not exactly the messages sent, once each, with their senders: got {gotSorted.length} want {wantSorted.length}"] else []) ++
+      (if (kv ws "end") = some "poison" && res = "done" && wantSorted.any (fun k => !gotSorted.contains k) then
+         ["C07 the Poison context became done although a message sent before the Poison call was never handled"] else []) ++
       (if !perSenderOrdered then ["C01+C05 messages of one sender were handled out of order (across restarts)"] else []) ++
       (if incs ≠ booms + 1 then [s!"C05+C06 {incs} incarnations for {booms} crashes"] else [])
     -- the verdict starts with all property labels concerned: FAIL:C04+C07+… <messages>
@@ -83,5 +85,23 @@ def lifeCase (inp impl : String) : CaseOut :=
     { model := canon, spec := spec, implView := view,
       tags := [s!"senders{min plan.length 4}", if booms = 0 then "no-crash" else s!"crashes{min booms 4}", (kv ws "end").getD "?"],
       nontrivial := wantSorted.length ≥ 2 }
+
+/-- stream ctxapi (C01): `n=<k> mode=<r|s|f|m> inbox=<size>`: one actor makes k successive Respond / Send /
+    Forward calls to one target inside one Receive; the target must see them exactly once, in order, with
+    the documented sender (Respond: none; Send and Forward: the calling actor "server/s"). One sender, one
+    target: the expected log is fully determined (C01.exactly_once_in_order + sender_program_order). -/
+def ctxApiCase (inp impl : String) : CaseOut :=
+  let ws := words inp
+  match kvNat ws "n", kv ws "mode" with
+  | some n, some mode =>
+    let item (i : Nat) : String :=
+      let m := if mode = "m" then ["r", "s", "f"].getD (i % 3) "r" else mode
+      if m = "r" then s!"v{i}<-" else if m = "s" then s!"v{i}<server/s" else "burst<server/s"
+    let want := String.intercalate "," ((List.range n).map fun i => item (i + 1))
+    { model := want,
+      spec := if impl = want then "ok" else
+        s!"FAIL:C01 successive sends of one actor to one target did not arrive exactly once, in order, with their senders (n={n} mode={mode})",
+      tags := [s!"mode-{mode}", if n > 1024 then "over-default-inbox" else "small"], nontrivial := n ≥ 2 }
+  | _, _ => bad "fields"
 
 end Driver
